@@ -665,15 +665,28 @@ func TestHistories(t *testing.T) {
 	ev.Rule(rule)
 	ev.Rapid(t, "c09-hist", 1000, 80000, func(rt *rapid.T) {
 		n := rapid.IntRange(0, 40).Draw(rt, "n")
+		if rapid.IntRange(0, 3).Draw(rt, "longer") == 0 {
+			n = rapid.IntRange(30, 100).Draw(rt, "nlong")
+		}
 		c := &HistCase{Xs: drawData(rt, n, true)}
 		if rapid.Bool().Draw(rt, "weighted") {
 			c.W = drawWeights(rt, n)
+		}
+		if rapid.IntRange(0, 2).Draw(rt, "appendScenario") == 0 {
+			// the life of a sample that is kept sorted while observations arrive: sort, a few late
+			// values behind the sorted bulk, sort again, query
+			c.Ops = append(c.Ops, Op{Kind: "sort"}, Op{Kind: "permute", Perm: gen.NearlySortedPerm(rt, n, "late")}, Op{Kind: "sort"}, Op{Kind: "query"})
 		}
 		k := rapid.IntRange(1, 10).Draw(rt, "nops")
 		for i := 0; i < k; i++ {
 			op := Op{Kind: rapid.SampledFrom([]string{"permute", "sort", "query", "copy-keep-copy", "copy-keep-orig"}).Draw(rt, "op")}
 			if op.Kind == "permute" {
 				op.Perm = gen.Perm(rt, n, "perm")
+				if rapid.Bool().Draw(rt, "nearlySorted") {
+					// relative to the current order - after a sort: a sorted bulk with a few late
+					// values appended, two sorted runs, a rotation, ...
+					op.Perm = gen.NearlySortedPerm(rt, n, "nearly")
+				}
 			}
 			c.Ops = append(c.Ops, op)
 		}
